@@ -269,6 +269,52 @@ theorem mpk_tpk_nonempty (c : Cfg) (bs : Bytes) (m : WMpk) (r : Bytes) (h : mpk 
       | none => simp [h3] at h
       | some w => simp only [h3, Option.some.injEq, Prod.mk.injEq] at h; obtain ⟨rfl, _⟩ := h; exact hne
 
+/-- a decoded V1 access structure (no stored identifier counter) only holds identifiers that have a
+successor below `2^64`: the counter `max(id) + 1` the reader recomputes cannot overflow (D14: the
+reader used `+ 1` on `usize`; an identifier `2^64 − 1` panicked with overflow checks and wrapped the
+counter to 0 without) -/
+theorem v1_ids_have_successor (bs : Bytes) (s : WStruct) (r : Bytes) (h : struct_ bs = some (s, r))
+    (hv : s.version = 0) : ∀ d ∈ s.dims, ∀ a ∈ d.attrs, a.id + 1 < 2 ^ 64 := by
+  unfold struct_ at h
+  cases h0 : leb bs with
+  | none => simp [h0] at h
+  | some p0 =>
+    obtain ⟨version, r0⟩ := p0
+    simp only [h0] at h
+    split at h
+    · cases h
+    · cases h1 : (if version = 1 then (leb r0).map (fun p => (some p.1, p.2)) else some (none, r0)) with
+      | none => simp [h1] at h
+      | some p1 =>
+        obtain ⟨nextId, r1⟩ := p1
+        simp only [h1] at h
+        cases h2 : leb r1 with
+        | none => simp [h2] at h
+        | some p2 =>
+          obtain ⟨n, r2⟩ := p2
+          simp only [h2] at h
+          cases h3 : many n dim r2 with
+          | none => simp [h3] at h
+          | some p3 =>
+            obtain ⟨ds, r3⟩ := p3
+            simp only [h3] at h
+            split at h
+            · cases h
+            · rename_i hno
+              simp only [Option.some.injEq, Prod.mk.injEq] at h
+              obtain ⟨rfl, _⟩ := h
+              simp only at hv
+              subst hv
+              intro d hd a ha
+              apply Nat.lt_of_not_le
+              intro hge
+              apply hno
+              refine ⟨rfl, ?_⟩
+              rw [List.any_eq_true]
+              refine ⟨d, hd, ?_⟩
+              rw [List.any_eq_true]
+              exact ⟨a, ha, by simp only [decide_eq_true_eq]; exact hge⟩
+
 /-- a decoded master key has at least one tracer, and every registered identifier at least one
 marker (`TracingSecretKey::tracing_level`, `UserId::tracing_level`; `full_decaps` divides by the
 first tracer) -/
